@@ -41,7 +41,8 @@ IDS = {"same": "vf-run", "prefix": "vf-run-ab12", "other": "zz-run",
 
 
 def write_graph(d, nfiles, edges, ids=None, mapped=(), loc="abs",
-                remote_host=None, features_restrict=None):
+                remote_host=None, features_restrict=None,
+                features_empty=None):
     """File i stores FEATS[i]; edges (i, j) are basin definitions i -> j."""
     from dclab.rtdc_dataset.writer import RTDCWriter
     ids = ids or ["same"] * nfiles
@@ -60,6 +61,8 @@ def write_graph(d, nfiles, edges, ids=None, mapped=(), loc="abs",
                 kw = {}
                 if features_restrict and (a, b) in features_restrict:
                     kw["basin_feats"] = [FEATS[b]]
+                if features_empty and (a, b) in features_empty:
+                    kw["basin_feats"] = []
                 if (a, b) in mapped:
                     kw["basin_map"] = np.array([0, 0, 2, 3], dtype=np.uint64)
                 if remote_host is not None and (a, b) in remote_host:
@@ -79,7 +82,7 @@ def write_graph(d, nfiles, edges, ids=None, mapped=(), loc="abs",
 
 
 def reference(nfiles, edges, ids, mapped, usable=lambda a, b: True,
-              restrict=()):
+              restrict=(), empty=()):
     """offered[i] = {j: composed map} reachable through usable edges whose
     identifier rule holds; the first (shortest, lowest index) route wins for
     the value map. None means 'unconstrained'."""
@@ -119,6 +122,8 @@ def reference(nfiles, edges, ids, mapped, usable=lambda a, b: True,
                     continue
                 cm = m[cmap] if False else m[np.arange(N)][cmap] \
                     if (a, b) not in mapped else m[cmap]
+                if (a, b) in empty:
+                    continue        # an empty feature list offers nothing
                 got.setdefault(b, []).append(cm)
                 if (a, b) in restrict:
                     # the definition lists only b's own feature: nothing
@@ -277,17 +282,21 @@ def _restrict_case(args):
     cnt = 0
     for r in range(1, len(edges) + 1):
         for rs in itertools.combinations(edges, r):
-            for mp in ((), tuple(edges)):
+            for mp, how in itertools.product(((), tuple(edges)),
+                                             ("own-feature", "empty")):
                 d = _mkdir(scratch, "res")
                 case = {"kind": "restrict", "shape": shape,
                         "restrict": [list(e) for e in rs],
-                        "mapped": [list(e) for e in mp]}
-                tags = {"kind": "restrict", "mapped": bool(mp)}
+                        "mapped": [list(e) for e in mp], "list": how}
+                tags = {"kind": "restrict", "mapped": bool(mp), "list": how}
+                kw1 = {"features_restrict" if how == "own-feature"
+                       else "features_empty": set(rs)}
+                kw2 = {"restrict" if how == "own-feature" else "empty":
+                       set(rs)}
                 try:
-                    paths = write_graph(d, nfiles, edges, mapped=mp,
-                                        features_restrict=set(rs))
+                    paths = write_graph(d, nfiles, edges, mapped=mp, **kw1)
                     ref = reference(nfiles, edges, ["same"] * nfiles, mp,
-                                    restrict=set(rs))
+                                    **kw2)
                     for i in range(nfiles):
                         out += check_open(paths[i], i, nfiles, ref, case,
                                           tags)
